@@ -123,3 +123,133 @@ def cong(t: Term, m: int):
 
 def len_key(x: Term):
     return ("len", unsnap(x).uid)
+
+
+def _known_len(x: Term):
+    """length of a bytes-valued term when it is statically a constant"""
+    x = unsnap(x)
+    if is_const(x) and isinstance(cval(x), (bytes, str, tuple)):
+        return len(cval(x))
+    if x.op == "call" and isinstance(x.args[0], Term) and x.args[0].op == "meth" and x.args[0].args[1] == "to_bytes" and x.args[1] and is_const(x.args[1][0]):
+        return cval(x.args[1][0])
+    if x.op == "call" and isinstance(x.args[0], Term) and x.args[0].op == "meth" and x.args[0].args[1] == "digest":
+        return None
+    return None
+
+
+_orig_lin = lin
+
+
+def lin(t: Term):  # noqa: F811  (wrapper adding constant lengths)
+    t = unsnap(t)
+    if t.op == "len":
+        k = _known_len(t.args[0])
+        if k is not None:
+            return {1: k}
+        inner = unsnap(t.args[0])
+        if inner.op == "bin" and inner.args[0] == "Add":
+            from .terms import mk
+
+            a, b = lin(mk("len", inner.args[1])), lin(mk("len", inner.args[2]))
+            if a is not None and b is not None:
+                out = dict(a)
+                for k2, v in b.items():
+                    out[k2] = out.get(k2, 0) + v
+                return out
+    if t.op == "bin" and t.args[0] in ("Add", "Sub"):
+        a, b = lin(t.args[1]), lin(t.args[2])
+        if a is None or b is None:
+            return None
+        out = dict(a)
+        for k, v in b.items():
+            out[k] = out.get(k, 0) + (v if t.args[0] == "Add" else -v)
+        return {k: v for k, v in out.items() if v != 0 or k == 1}
+    if t.op == "un" and t.args[0] == "USub":
+        a = lin(t.args[1])
+        return None if a is None else {k: -v for k, v in a.items()}
+    if t.op == "bin" and t.args[0] == "Mult":
+        a, b = lin(t.args[1]), lin(t.args[2])
+        if a is None or b is None:
+            return None
+        for x, y in ((a, b), (b, a)):
+            if set(x.keys()) <= {1}:
+                c = x.get(1, 0)
+                return {k: v * c for k, v in y.items()}
+        return None
+    return _orig_lin(t)
+
+
+_orig_cong = cong
+
+
+def cong(t: Term, m: int):  # noqa: F811
+    t = unsnap(t)
+    if t.op == "len":
+        l = lin(t)
+        if l is not None and set(l.keys()) <= {1}:
+            v = l.get(1, 0)
+            return ({}, v % m, v, v)
+        if l is not None and not (len(l) == 1 and list(l.values()) == [1]):
+            # sum of lengths
+            co = {k: v % m for k, v in l.items() if k != 1 and v % m}
+            return (co, l.get(1, 0) % m, None, None)
+    if t.op == "bin" and t.args[0] in ("Add", "Sub"):
+        a, b = cong(t.args[1], m), cong(t.args[2], m)
+        if a is None or b is None:
+            return None
+        s = 1 if t.args[0] == "Add" else -1
+        co = dict(a[0])
+        for k, v in b[0].items():
+            co[k] = (co.get(k, 0) + s * v) % m
+        c = (a[1] + s * b[1]) % m
+        if s == 1:
+            lo = None if a[2] is None or b[2] is None else a[2] + b[2]
+            hi = None if a[3] is None or b[3] is None else a[3] + b[3]
+        else:
+            lo = None if a[2] is None or b[3] is None else a[2] - b[3]
+            hi = None if a[3] is None or b[2] is None else a[3] - b[2]
+        return ({k: v for k, v in co.items() if v}, c, lo, hi)
+    if t.op == "un" and t.args[0] == "USub":
+        a = cong(t.args[1], m)
+        if a is None:
+            return None
+        co, c, lo, hi = a
+        return ({k: (-v) % m for k, v in co.items() if (-v) % m}, (-c) % m, None if hi is None else -hi, None if lo is None else -lo)
+    if t.op == "bin" and t.args[0] == "Mod":
+        rr = unsnap(t.args[2])
+        if is_const(rr) and isinstance(cval(rr), int) and cval(rr) > 0:
+            k = cval(rr)
+            a = cong(t.args[1], m)
+            if a is not None and k % m == 0:
+                return (a[0], a[1], 0, k - 1)
+            return ({("atom", t.uid): 1}, 0, 0, k - 1)
+    return _orig_cong(t, m)
+
+
+def segs_cong(segs, m: int):
+    """congruence/range of the total length of a writer segment list"""
+    co, c, lo, hi = {}, 0, 0, 0
+    for s in segs:
+        k = s[0]
+        if k == "const":
+            part = ({}, len(s[1]) % m, len(s[1]), len(s[1]))
+        elif k == "int":
+            part = ({}, s[1] % m, s[1], s[1])
+        elif k == "mac":
+            part = ({}, 16 % m, 16, 16)
+        elif k == "zeros":
+            part = cong(s[1], m)
+        elif k == "opaque":
+            from .terms import mk
+
+            part = cong(mk("len", s[1]), m)
+        else:
+            return None
+        if part is None:
+            return None
+        for kk, v in part[0].items():
+            co[kk] = (co.get(kk, 0) + v) % m
+        c = (c + part[1]) % m
+        lo = None if lo is None or part[2] is None else lo + part[2]
+        hi = None if hi is None or part[3] is None else hi + part[3]
+    return ({k: v for k, v in co.items() if v}, c, lo, hi)
